@@ -108,6 +108,8 @@ pub struct Behaviour {
     pub known_victim_seq: u64,
     /// Attach own record to handshakes even when the victim's WHOAREYOU says it is known.
     pub always_attach_record: bool,
+    /// Record bytes to return for distance 0 instead of the peer's own record.
+    pub nodes_record_override: Option<Vec<u8>>,
 }
 
 impl Default for Behaviour {
@@ -120,6 +122,7 @@ impl Default for Behaviour {
             nodes_total: None,
             known_victim_seq: 0,
             always_attach_record: false,
+            nodes_record_override: None,
         }
     }
 }
@@ -481,7 +484,7 @@ impl Engine {
             RefMessage::FindNode { distances, .. } => {
                 let n = self.peers[i].behaviour.nodes_packets.max(1);
                 let total = self.peers[i].behaviour.nodes_total.unwrap_or(n);
-                let own = self.peers[i].sim.ident.record_bytes();
+                let own = self.peers[i].behaviour.nodes_record_override.clone().unwrap_or_else(|| self.peers[i].sim.ident.record_bytes());
                 (0..n)
                     .map(|k| RefMessage::Nodes {
                         id: id.clone(),
